@@ -1,5 +1,6 @@
 """C03 - named fields load correctly in any request order (structural clauses)."""
 from bsv.cfg import CFG
+from bsv.expr import resolve
 from bsv.effects import live_walk
 from bsv.facts import AnalysisBroken, child, strip, strip_targs
 from rules.c20 import pattern_in_lib
@@ -363,13 +364,22 @@ def check_wrappers(prog, rep):
                 if n['k'] == 'ReturnStmt':
                     v = strip(child(n, 'value'), casts=False)
                     ret = v.get('cv') if v is not None else None
-                    if v is not None and any(is_inner_load(f, x) for x in f.walk(v)):
+                    rv = resolve(f, v) if v is not None else None
+                    if rv is not None and any(is_inner_load(f, x) for x in f.walk(rv)):
                         ret_is_inner = True
                 if is_inner_load(f, n):
                     inner_seen = True
             for cond_id, idx, tk in dec:
                 c = f.node(cond_id) if cond_id is not None else None
-                if c is not None and idx == 0 and any(is_inner_load(f, x) for x in f.walk(c)):
+                if c is None:
+                    continue
+                # the condition is the inner load itself, its negation, or a named flag initialised with it (`const bool isLoaded = ...`)
+                e, neg = strip(c), False
+                while e is not None and e['k'] == 'UnaryOperator' and e.get('op') == '!':
+                    neg = not neg
+                    e = strip(e['c'][0])
+                e = resolve(f, e) if e is not None else None
+                if e is not None and any(is_inner_load(f, x) for x in f.walk(e)) and ((idx == 0) != neg):
                     inner_true = True
             if stored is not None and not inner_true and not ret_is_inner:
                 bad = 'the target is written at line %d on a path where the inner load did not report true' % stored['l']
